@@ -1,8 +1,11 @@
 /-
 `Cache.check(fix)` (core.py:1890-2020, after fix D7) on a possibly damaged
 directory.  Only what `check` reads is modelled: the rows' (rowid, size,
-filename), the two Settings counters, the value files with their real sizes and
-their two-level directories `xx/yy/`, and the directories themselves.
+filename), the two Settings counters, the files `os.walk(directory)` finds with
+their real sizes -- in the two-level value tree `xx/yy/`, directly in a
+first-level directory `xx/`, or directly in the cache directory -- and the
+directories themselves (two levels).  Each file carries the outcome of the test
+`DBNAME in full_path` (core.py, file pass), a SUBSTRING test on the full path.
 `PRAGMA integrity_check` / `VACUUM` are SQLite-internal and not modelled.
 -/
 import DC.Model.Value
@@ -15,12 +18,27 @@ structure CRow where
   file : Option Nat        -- file id, if the value is kept in a file
   deriving DecidableEq, Repr
 
+/-- where `os.walk` finds a file -/
+inductive Level where
+  | top                    -- directly in the cache directory (`d1`, `d2` unused)
+  | first                  -- directly in the first-level directory `d1` (`d2` unused)
+  | leaf                   -- in `d1/d2/`: the value tree
+  deriving DecidableEq, Repr
+
 structure FsFile where
   id : Nat
   d1 : Nat                 -- first-level directory
   d2 : Nat                 -- second-level directory (inside d1)
   size : Nat               -- real size on disk
+  level : Level := .leaf   -- where the file lies (default: in the value tree)
+  db : Bool := false       -- the full path contains the text `cache.db` (`DBNAME in full_path`)
   deriving DecidableEq, Repr
+
+/-- the file lies in the second-level directory `d` -/
+def FsFile.inDir2 (f : FsFile) (d : Nat × Nat) : Bool := f.level == .leaf && (f.d1 == d.1 && f.d2 == d.2)
+
+/-- the file lies in or below the first-level directory `d` -/
+def FsFile.under (f : FsFile) (d : Nat) : Bool := f.level != .top && f.d1 == d
 
 structure St where
   rows : List CRow
@@ -69,20 +87,22 @@ def rowPass (fix : Bool) (s : St) : List CRow → St × List Warn
         let (s'', w) := rowPass fix s' rest
         (s'', .notFound r.rowid :: w)
 
-/-- files against rows: a file no row (of the table as it was read) names is unknown -/
+/-- files against rows: a file no row (of the table as it was read) names is unknown, at
+whatever level `os.walk` finds it -- unless its full path contains the text `cache.db`
+(`if DBNAME in full_path: continue`), in which case it is passed over in silence -/
 def filePass (fix : Bool) (named : List Nat) (s : St) : St × List Warn :=
-  let unk := s.files.filter (fun f => !named.contains f.id)
-  let s' := if fix then { s with files := s.files.filter (fun f => named.contains f.id) } else s
+  let unk := s.files.filter (fun f => !named.contains f.id && !f.db)
+  let s' := if fix then { s with files := s.files.filter (fun f => named.contains f.id || f.db) } else s
   (s', unk.map (fun f => .unknown f.id))
 
-def dir2Empty (s : St) (d : Nat × Nat) : Bool := !s.files.any (fun f => f.d1 == d.1 && f.d2 == d.2)
+def dir2Empty (s : St) (d : Nat × Nat) : Bool := !s.files.any (·.inDir2 d)
 
 /-- bottom-up: second-level directories first, then first-level ones; a directory is empty
 when it currently has no entry (files or subdirectories) -/
 def dirPass (fix : Bool) (s : St) : St × List Warn :=
   let e2 := s.dirs2.filter (dir2Empty s)
   let s2 := if fix then { s with dirs2 := s.dirs2.filter (fun d => !dir2Empty s d) } else s
-  let e1 := s2.dirs1.filter (fun d => !s2.dirs2.any (·.1 == d) && !s2.files.any (·.d1 == d))
+  let e1 := s2.dirs1.filter (fun d => !s2.dirs2.any (·.1 == d) && !s2.files.any (·.under d))
   let s1 := if fix then { s2 with dirs1 := s2.dirs1.filter (fun d => !e1.contains d) } else s2
   (s1, e2.map (fun d => .emptyDir2 d.1 d.2) ++ e1.map .emptyDir1)
 
